@@ -492,6 +492,8 @@ def run(R, ctx):
     R.assumptions += ["coverage per (ADT, slot), not path-sensitive", "std String methods are recognised by name"]
     walkers.walker_cover(R, ctx, "C04.shift-cover", "shift_token_line")
     walkers.double_application(R, ctx, "C04.once", "shift_token_line")
+    # a comment appended at the end hangs on the last token written: anywhere else it pushes the rest of the statement one line down
+    c18.last_token_is_last_written(R, ctx, "C04.last-token")
     keep(R, ctx)
     bundle_insert(R, ctx)
     lines_eval(R, ctx)
